@@ -662,6 +662,51 @@ def run_impl(case):
     out["inpl5_fresh"] = LocalPolynomial(kernel_name=case["kernel"], bandwidth=h, degree=case["degree"]).predict(y=y2, x=xr_np.copy(), x_new=qc_np.copy()).tolist()
     _, cond4, npos4 = reference_wls(xr_np, y, qc_np, h, case["kernel"], case["degree"])
     out["_cond4"], out["_npos4"] = cond4, npos4
+    # array-like inputs the API accepts (established on the unchanged tree: they give the ndarray answer there):
+    # responses as pandas Series with a non-default index (shuffled, offset, strings), DataFrame column, list, tuple,
+    # read-only / masked (nothing masked) / float32 / integer / column arrays; sampling and query points as read-only,
+    # masked or (n,1) arrays.  Each must give the answer of np.asarray(input).
+    import pandas as pd
+
+    def ro(a):
+        a = np.array(a, copy=True)
+        a.setflags(write=False)
+        return a
+
+    n_ = len(y)
+    shuffled = np.array(case["perm"])
+    yint = np.round(y * 8.0)
+    qa = q[:2]
+    col = (lambda a: a.reshape(-1, 1)) if case["dim"] == 1 else (lambda a: a)
+    forms = {
+        "y=Series(shuffled index)": dict(y=pd.Series(y, index=shuffled), x=x, x_new=qa),
+        "y=Series(index 100..)": dict(y=pd.Series(y, index=np.arange(100, 100 + n_)), x=x, x_new=qa),
+        "y=Series(string index)": dict(y=pd.Series(y, index=[f"r{i}" for i in range(n_)]), x=x, x_new=qa),
+        "y=DataFrame column(rows re-ordered)": dict(y=pd.DataFrame({"v": y}, index=shuffled)["v"], x=x, x_new=qa),
+        "y=DataFrame column after dropna": dict(y=pd.DataFrame({"v": np.concatenate([[np.nan], y])}).dropna()["v"], x=x, x_new=qa),
+        "y=list": dict(y=list(y), x=x, x_new=qa),
+        "y=tuple": dict(y=tuple(y), x=x, x_new=qa),
+        "y=read-only": dict(y=ro(y), x=x, x_new=qa),
+        "y=masked(no mask)": dict(y=np.ma.masked_array(y), x=x, x_new=qa),
+        "y=column (n,1)": dict(y=y.reshape(-1, 1), x=x, x_new=qa),
+        "x=read-only": dict(y=y, x=ro(x), x_new=qa),
+        "x=masked(no mask)": dict(y=y, x=np.ma.masked_array(x), x_new=qa),
+        "x=(n,1)": dict(y=y, x=col(x), x_new=qa),
+        "x_new=read-only": dict(y=y, x=x, x_new=ro(qa)),
+        "x_new=masked(no mask)": dict(y=y, x=x, x_new=np.ma.masked_array(qa)),
+        "x_new=(k,1)": dict(y=y, x=x, x_new=col(qa)),
+    }
+    al = {}
+    for name, kw in forms.items():
+        try:
+            al[name] = np.asarray(lp.predict(**kw), dtype=float).ravel().tolist()
+        except Exception as e:  # noqa: BLE001
+            al[name] = f"{type(e).__name__}: {str(e)[:80]}"
+    out["arraylike"] = al
+    out["arraylike_int"] = [np.asarray(lp.predict(y=yint.astype(np.int64), x=x, x_new=qa), dtype=float).ravel().tolist(),
+                            lp.predict(y=yint, x=x, x_new=qa).tolist()]
+    out["arraylike_f32"] = [np.asarray(lp.predict(y=y.astype(np.float32), x=x, x_new=qa), dtype=float).ravel().tolist(),
+                            lp.predict(y=y.astype(np.float32).astype(float), x=x, x_new=qa).tolist()]
     # memory layout: strided (non-contiguous) views and Fortran order of the same numbers
     xs, ys, qs = np.repeat(x, 2, axis=0)[::2], np.repeat(y, 2)[::2], np.repeat(q, 2, axis=0)[::2]
     if case["dim"] == 2:
@@ -909,6 +954,16 @@ def oracle(case, impl):
             if not near(f, g, scale, 1e-9):
                 bad("history_independent", f"{what}: the reused object gives {f!r}, a fresh object {g!r} (query {j}, {case['kernel']}, degree {case['degree']}, n={case['n']}, dim {case['dim']})", dom + ["inplace"])
                 break
+    for name, r in impl.get("arraylike", {}).items():
+        if isinstance(r, str):
+            bad("array_like_inputs", f"{name}: raises {r} (an ndarray with the same numbers is accepted; {case['kernel']}, degree {case['degree']}, n={case['n']})", dom)
+        elif len(r) != 2 or not all(near(f, g, sc, 1e-9) for f, g in zip(r, impl["base"][:2])):
+            bad("array_like_inputs", f"{name}: estimates {r} but np.asarray of the same input gives {impl['base'][:2]} ({case['kernel']}, degree {case['degree']}, h={case['h']}, n={case['n']})", dom)
+    for key, tolr in (("arraylike_int", 1e-9), ("arraylike_f32", 1e-9)):
+        if key in impl:
+            a_, b_ = impl[key]
+            if not all(near(f, g, max(sc, 8 * sc if key == "arraylike_int" else sc), tolr) for f, g in zip(a_, b_)):
+                bad("array_like_inputs", f"{key[10:]} responses: estimates {a_} but the same numbers as float64 give {b_}", dom)
     for j, (f, g) in enumerate(zip(impl["strided"], impl["base"])):
         if not near(f, g, sc, 1e-10):
             bad("memory_layout", f"strided / Fortran-ordered inputs give {f!r}, contiguous ones {g!r} (query {j})", dom)
